@@ -1262,8 +1262,11 @@ def check_overlapping_walks(case):
 
 
 # ---------------------------------------------- from_networkx, any node order --
-def nx_bipartite(L, Rr, edges, order, orient):
+def nx_bipartite(L, Rr, edges, order, orient, sides='int'):
+    """sides: how the side of a node is written -- ints 0/1, the strings '0'/'1'
+    (what a dot file delivers), booleans"""
     import networkx
+    enc = {'int': (0, 1), 'str': ('0', '1'), 'bool': (False, True)}[sides]
     G = networkx.Graph()
     lefts = [('l', i) for i in range(1, L + 1)]
     rights = [('r', j) for j in range(1, Rr + 1)]
@@ -1279,7 +1282,7 @@ def nx_bipartite(L, Rr, edges, order, orient):
     else:
         seq = lefts + rights
     for side, i in seq:
-        G.add_node('%s%02d' % (side, i), bipartite=0 if side == 'l' else 1)
+        G.add_node('%s%02d' % (side, i), bipartite=enc[0] if side == 'l' else enc[1])
     for k, (u, v) in enumerate(edges):
         a, b = 'l%02d' % u, 'r%02d' % v
         if orient == 'rl' or (orient == 'mixed' and k % 2):
@@ -1297,8 +1300,10 @@ def check_from_networkx(case):
     out = []
     for order in ('left-first', 'right-first', 'interleaved'):
         for orient in ('lr', 'rl', 'mixed'):
+            sides = {'lr': 'int', 'rl': 'str', 'mixed': 'bool'}[orient] if order != 'left-first' else \
+                {'lr': 'str', 'rl': 'bool', 'mixed': 'int'}[orient]
             try:
-                B = BipartiteGraph.from_networkx(nx_bipartite(L, Rr, edges, order, orient))
+                B = BipartiteGraph.from_networkx(nx_bipartite(L, Rr, edges, order, orient, sides))
                 got = (B.left_order(), B.right_order(), sorted(map(tuple, B.edges())))
             except Exception as e:
                 out.append({'key': 'BipartiteGraph.from_networkx:%s:exception:%s' % (order, type(e).__name__),
